@@ -242,6 +242,25 @@ func c10Scenarios(tier string) []*world.Scenario {
 	out = append(out, c10Scenario("set-mget-del-get",
 		[][]Req{{set(a1, "m"), mget([]string{"m", ""}, a1, a2), func() Req { r := DelReq(a1); r.Expect = []byte(":1\r\n"); return r }(), func() Req { r := GetReq(a1); r.Expect = []byte("$-1\r\n"); return r }()}},
 		[][]rd{{{"set", []string{a1}, "m"}, {"mget", []string{a1, a2}, ""}, {"del", []string{a1}, ""}, {"get", []string{a1}, ""}}}, b))
+	// slow backend: the node reads slowly, so the proxy's outbound backlog to it builds up (ring part, then list
+	// part at 64 bytes) and is drained in pieces while further requests of the same client are queued
+	{
+		big := strings.Repeat("B", 90)
+		sc := c10Scenario("slow-backend/set-setbig-get",
+			[][]Req{{set(a0, "s"), set(a1, big), get(a1, big), set(a0, "t"), get(a0, "t")}},
+			[][]rd{{{"set", []string{a0}, "s"}, {"set", []string{a1}, big}, {"get", []string{a1}, ""}, {"set", []string{a0}, "t"}, {"get", []string{a0}, ""}}}, 3)
+		sc.SlowBackends, sc.WriteOracle, sc.WriteCap = true, true, 64
+		sc.Family = "slow-backend"
+		base := sc.Check
+		sc.Check = func(w *world.World) []world.Violation {
+			if vs := BackendsWellFormed(w); len(vs) > 0 {
+				vs[0].Sig = "per-node-order-violated"
+				return vs
+			}
+			return base(w)
+		}
+		out = append(out, sc)
+	}
 	if tier == "thorough" {
 		out = append(out, c10Scenario("3x set-get",
 			[][]Req{{set(a0, "x"), get(a0, "x")}, {set(a1, "y"), get(a1, "y")}, {set(a2, "z"), get(a2, "z")}},
